@@ -39,7 +39,8 @@ EmptyState(cf, pl) ==
      l1 |-> [c \in Clients |-> [n \in Keys |-> NoEntry]],
      pc |-> [c \in Clients |-> Idle],
      now |-> 0, nv |-> 0, genlog |-> {}, killed |-> {},
-     done |-> [c \in Clients |-> 0]]
+     done |-> [c \in Clients |-> 0],
+     l1c |-> [c \in Clients |-> 0]]
 
 TReset ==
     /\ Is("Reset")
